@@ -58,6 +58,7 @@ int ns_total_sent(void);        /* datagrams sent by libcoap sockets so far */
 extern int ns_send_fail_next;   /* >0: the next coap_socket_send returns -1/ENOBUFS (decremented) */
 
 /* hooks */
+extern void (*ns_mutate)(ns_dgram_t *d);       /* just before delivery: may rewrite the bytes (hostile network) */
 extern void (*ns_on_send)(const ns_dgram_t *d);    /* every datagram a libcoap socket sends */
 extern void (*ns_on_deliver)(const ns_dgram_t *d); /* just before a datagram is handed over */
 extern void (*ns_raw_rx)(const ns_dgram_t *d);     /* delivery to an address without libcoap socket */
@@ -116,6 +117,8 @@ void ns_stream_release_all(ns_stream_t *s, int side);
 void ns_stream_raw_close(ns_stream_t *s, int side);
 int ns_stream_pump(void); /* deliver everything pending between libcoap stream sides until quiet; returns #rounds */
 extern int ns_stream_auto; /* 1 (default): bytes written are immediately readable by the other side */
+/* optional rewrite of bytes a libcoap side writes before the other side can read them (cap >= *len + 64) */
+extern void (*ns_stream_filter)(ns_stream_t *s, int from_side, uint8_t *data, size_t *len, size_t cap);
 
 /* ---- epoll builds (COAP_EPOLL_SUPPORT): epoll_create1/epoll_ctl/epoll_wait/timerfd_* are served by netsim ---- */
 struct epoll_event;
